@@ -1650,8 +1650,8 @@ impl Aml for PowerResource<'_> {
         // PkgLength
         let pkg_length = create_pkg_length(bytes.len(), true);
 
-        sink.byte(POWERRESOURCEOP);
         sink.byte(EXTOPPREFIX);
+        sink.byte(POWERRESOURCEOP);
         sink.vec(&pkg_length);
         sink.vec(&bytes);
     }
